@@ -765,6 +765,20 @@ func (t *txbGen) manual(w string) {
 	case 1:
 		specs = append(specs, specs[0])
 		cls = "man-dup"
+	case 4, 5: // the same output twice, the second time with its id in upper-case hex (still the same outpoint)
+		specs = append(specs, specs[0]+":U")
+		cls = "man-dup-upper"
+		if len(elig) > 0 {
+			// an otherwise valid request: one eligible coin, named twice in two spellings (so that nothing but the
+			// duplicate check stands between the request and a draft that spends the coin twice)
+			c := elig[r.Intn(len(elig))]
+			specs = []string{c.key(), c.key() + ":U"}
+			totalIn = c.amt
+			cls = "man-dup-upper-eligible"
+		}
+	case 6: // a single input spelled in upper case: a valid request
+		specs[0] = specs[0] + ":U"
+		cls = "man-upper"
 	case 2: // an output that was already spent on the chain (defined tx no longer unspent)
 		if len(l.chain) > 2 {
 			b := l.blocks[l.chain[1+r.Intn(len(l.chain)-1)]]
